@@ -34,6 +34,14 @@ def run(tier, seed):
                 chk.violation(dict(stage='c17-oracle', what='all-of-object'), 'all pulses of object tag %d loaded %r, block is %r' % (q['tag'], q['load'], blk), r['spec'])
         if o['all'] != list(range(len(o['pulses']))):
             chk.violation(dict(stage='c17-oracle', what='all'), 'all pulses loaded %r' % o['all'], r['spec'])
+        c = o.get('cli')
+        if c:
+            if c['src'] != c['want_src']:
+                chk.violation(dict(stage='c17-oracle', what='command-line sources'), 'sources %r feed pulses %r, the geometry table says %r' % (
+                    [a for a in c['argv'] if 'excitation' in a], c['src'], c['want_src']), r['spec'])
+            if c['load1'] != c['want_load1'] or c['load2'] != c['want_load2']:
+                chk.violation(dict(stage='c17-oracle', what='command-line loads'), 'attachments %r load pulses %r / %r (with multiplicity, as the matrix fill '
+                              'sees them), the geometry table says %r / %r' % ([a for a in c['argv'] if 'attach' in a], c['load1'], c['load2'], c['want_load1'], c['want_load2']), r['spec'])
         tags = o['tags']
         if tags != sorted(tags) or len(set(tags)) != len(tags):
             chk.violation(dict(stage='c17-oracle', what='tag order'), 'objects not ordered by distinct tags: %r' % tags, r['spec'])
